@@ -642,7 +642,9 @@ func runParent(id, propID, tier string, seed uint64) (Evidence, int) {
 			inconcl = append(inconcl, fmt.Sprintf("watchdog fired in case %d", c.Index))
 			continue
 		}
-		if chk.PanicIsViolation && c.Index >= 0 {
+		// the runtime's own detection of unsynchronised map access is a race witness wherever it happens
+		mapRace := strings.Contains(c.Tail, "fatal error: concurrent map")
+		if (chk.PanicIsViolation || mapRace) && c.Index >= 0 {
 			viols = append(viols, vrec{c.Index, Violation{Key: key, Detail: "child process died in case: " + c.Reason, Witness: c.Tail}})
 		} else {
 			inconcl = append(inconcl, fmt.Sprintf("child died in case %d (%s, %s): %s", c.Index, c.Reason, key, firstLine(c.Tail)))
